@@ -29,7 +29,10 @@ def install(args):
                 int_into_float = False
                 try:
                     if e.type.is_float:
-                        int_into_float = any(getattr(a, 'inferred_type', None) is not None and a.inferred_type.is_int
+                        # some assigned value is not a float (C integer, Python int/bool object, ...)
+                        def floaty(t):
+                            return t.is_float or (getattr(t, 'is_builtin_type', False) and getattr(t, 'name', '') == 'float')
+                        int_into_float = any(getattr(a, 'inferred_type', None) is not None and not floaty(a.inferred_type)
                                              for a in e.cf_assignments)
                 except Exception:
                     pass
